@@ -25,15 +25,15 @@ import (
 const modPath = "github.com/boz/kcache"
 
 type Prog struct {
-	rfpMemo map[*ssa.Function]map[*ssa.Parameter]*Term
+	rfpMemo   map[*ssa.Function]map[*ssa.Parameter]*Term
 	callerIdx map[*ssa.Function][]callSite
 	ownerMemo map[*ssa.Function]map[*ssa.Function]bool
-	Dir   string
-	Fset  *token.FileSet
-	Pkgs  []*packages.Package // repository packages, sorted by path
-	ByPath map[string]*packages.Package
-	SSA   *ssa.Program
-	SPkg  map[string]*ssa.Package
+	Dir       string
+	Fset      *token.FileSet
+	Pkgs      []*packages.Package // repository packages, sorted by path
+	ByPath    map[string]*packages.Package
+	SSA       *ssa.Program
+	SPkg      map[string]*ssa.Package
 
 	cha *callgraph.Graph
 	vta *callgraph.Graph
